@@ -1,5 +1,6 @@
 import SwimVerif.Driver
 import SwimVerif.Model.RouteMon
+import SwimVerif.Model.RoutePlane
 
 namespace SwimVerif.Machines.C18
 open SwimVerif
@@ -13,6 +14,15 @@ def c18 : Machine where
   minit := {}
   mstep := fun m line out => m.step line out
 
-def machines : List (String × Machine) := [("c18", c18)]
+/-- Plane level (`sv-c18p`): tables of patterns through `PlaneBuilder` / `ServerBuilder` / the server's route table. -/
+def c18p : Machine where
+  σ := Unit
+  init := ()
+  step := fun s line => (s, Route.planeLine line)
+  μ := Route.PlaneMon
+  minit := {}
+  mstep := fun m line out => m.step line out
+
+def machines : List (String × Machine) := [("c18", c18), ("c18p", c18p)]
 
 end SwimVerif.Machines.C18
